@@ -99,6 +99,14 @@ pub struct SimCfg {
     /// seed of the stubs' auxiliary stream (find_any winner, random take)
     pub aux_seed: u64,
     pub max_steps: usize,
+    /// simulated worker tasks one execution may spawn before parallel iterators fall back to
+    /// running in order on the calling task (the OS limits the number of stack mappings)
+    #[serde(default = "default_spawn_budget")]
+    pub spawn_budget: u64,
+}
+
+fn default_spawn_budget() -> u64 {
+    800
 }
 
 impl SimCfg {
@@ -111,6 +119,7 @@ impl SimCfg {
             rng: RngSpec::Stream { seed: 0, adversarial: 0.0, abs: vec![], period: 6 },
             aux_seed: 0,
             max_steps: 2_000_000,
+            spawn_budget: default_spawn_budget(),
         }
     }
 
@@ -137,6 +146,7 @@ impl SimCfg {
             rng: RngSpec::Stream { seed: rng_seed, adversarial: 0.0, abs: vec![], period: 6 },
             aux_seed: simctx::mix(&[sched_seed, 0xA0C5]),
             max_steps,
+            spawn_budget: default_spawn_budget(),
         }
     }
 }
@@ -446,6 +456,7 @@ impl Scheduler for EngineScheduler {
         ctx.take = cfg.take.to_ctx();
         ctx.inner_full = cfg.inner_full;
         ctx.aux = Rng::new(cfg.aux_seed);
+        ctx.spawn_budget = cfg.spawn_budget;
         ctx.rng = match &cfg.rng {
             RngSpec::Stream { seed, adversarial, abs, period } => {
                 ctx.abs = abs.clone();
